@@ -69,15 +69,15 @@ def op_strategy(weights=None):
                                st.sampled_from([914400, 3000001, 7]), st.sampled_from([914400, 1000003, 5])),
         "add_chart": st.tuples(st.just("add_chart"), I, I, st.integers(0, 3), st.integers(0, 4), st.integers(0, 3)),
         "replace_data": st.tuples(st.just("replace_data"), I, I, st.integers(1, 3), st.integers(1, 4), st.integers(0, 3)),
-        "add_movie": st.tuples(st.just("add_movie"), I, st.integers(0, 2), C, C, S, S),
+        "add_movie": st.tuples(st.just("add_movie"), I, st.integers(0, 5), C, C, S, S),
         "add_ole": st.tuples(st.just("add_ole"), I, I, st.integers(0, 2), st.booleans()),
         "ph_insert": st.tuples(st.just("ph_insert"), I, I, I),
         "set_text": st.tuples(st.just("set_text"), I, I, st.integers(0, 4), T),
         "para_op": st.tuples(st.just("para_op"), I, I, st.integers(0, 5), T),
-        "fmt": st.tuples(st.just("fmt"), I, I, st.integers(0, 31), st.integers(0, 7)),
+        "fmt": st.tuples(st.just("fmt"), I, I, st.integers(0, 32), st.integers(0, 7)),
         "table_op": st.tuples(st.just("table_op"), I, I, st.integers(0, 9), st.integers(0, 5), st.integers(0, 5),
                               st.integers(0, 5), st.integers(0, 5)),
-        "chart_fmt": st.tuples(st.just("chart_fmt"), I, I, st.integers(0, 26), st.integers(0, 6)),
+        "chart_fmt": st.tuples(st.just("chart_fmt"), I, I, st.integers(0, 27), st.integers(0, 6)),
         # few distinct URLs and few target slides so relationships get shared and reference-counted
         "hyperlink": st.tuples(st.just("hyperlink"), st.integers(0, 1), I, st.sampled_from([-1, -1, 0, 0, 0, 1, 1, 2, 3, 4])),
         "run_hyperlink": st.tuples(st.just("run_hyperlink"), st.integers(0, 1), I, st.sampled_from([-1, -1, 0, 0, 0, 1, 1, 2, 3, 4])),
@@ -97,7 +97,7 @@ def op_strategy(weights=None):
         "seq": st.one_of(
             st.tuples(st.just("fmt"), I, I, st.sampled_from([(0, 6), (7, 10), (11, 14), (15, 24), (15, 18), (17, 18)]).flatmap(
                 lambda r: st.lists(st.tuples(st.integers(r[0], r[1]), st.integers(0, 7)), min_size=2, max_size=5))),
-            st.tuples(st.just("chart_fmt"), I, I, st.lists(st.tuples(st.integers(0, 26), st.integers(0, 6)), min_size=2, max_size=5)),
+            st.tuples(st.just("chart_fmt"), I, I, st.lists(st.tuples(st.integers(0, 27), st.integers(0, 6)), min_size=2, max_size=5)),
             st.tuples(st.just("table_op"), I, I, st.lists(st.tuples(st.integers(0, 9), st.integers(0, 5), st.integers(0, 5),
                                                                      st.integers(0, 5), st.integers(0, 5)), min_size=2, max_size=5)),
         ).map(lambda t: ("seq", [[t[0], t[1], t[2]] + list(x) for x in t[3]])) | st.tuples(
@@ -184,6 +184,26 @@ def chart_types():
             ("cat", X.DOUGHNUT), ("cat", X.RADAR), ("xy", X.XY_SCATTER), ("xy", X.XY_SCATTER_LINES_NO_MARKERS),
             ("bubble", X.BUBBLE), ("cat", X.BAR_STACKED_100), ("cat", X.LINE), ("cat", X.COLUMN_CLUSTERED),
             ("cat", X.PIE_EXPLODED), ("cat", X.AREA_STACKED), ("cat", X.RADAR_FILLED), ("cat", X.BAR_OF_PIE if False else X.LINE_STACKED)]
+
+
+_UPPER = {}
+
+
+def _upper_ext_copy(path):
+    """a copy of `path` whose file name has an upper-case extension (one shared scratch copy, made on demand)"""
+    import shutil
+    import tempfile
+    if path not in _UPPER:
+        d = os.path.join(tempfile.gettempdir(), "verif-deckops-upper")
+        os.makedirs(d, exist_ok=True)
+        base, ext = os.path.splitext(os.path.basename(path))
+        dst = os.path.join(d, base.upper() + ext.upper())
+        if not (os.path.exists(dst) and os.path.getsize(dst) == os.path.getsize(path)):
+            tmp = "%s.%d" % (dst, os.getpid())
+            shutil.copyfile(path, tmp)
+            os.replace(tmp, dst)
+        _UPPER[path] = dst
+    return _UPPER[path]
 
 
 class Interp:
@@ -387,11 +407,14 @@ class Interp:
             return "skipped"
         def f():
             kw = {}
-            if poster == 1:
+            if poster % 3 == 1:
                 kw["poster_frame_image"] = _img(1)
-            elif poster == 2:
+            elif poster % 3 == 2:
                 kw["poster_frame_image"] = io.BytesIO(open(_img(0), "rb").read())
-            info.update(added=sl.shapes.add_movie(os.path.join(REPO, MOVIE), x, y, cx, cy, mime_type="video/mp4", **kw),
+            path = os.path.join(REPO, MOVIE)
+            if poster >= 3:
+                path = _upper_ext_copy(path)   # CLIP.MP4: the extension of a media file in capitals
+            info.update(added=sl.shapes.add_movie(path, x, y, cx, cy, mime_type="video/mp4", **kw),
                         slide=sl, container=sl.shapes, depth=0, kind="movie")
         return self._call("add_movie", f)
 
@@ -631,6 +654,28 @@ class Interp:
                     sh.shadow.inherit = bool(v % 2)
             info.update(slide=sl, target=sh)
             return self._call("fmt_misc%d" % kind, f, rej + (NotImplementedError,))
+        if kind == 32:
+            # two proxies of one colour object taken before a colour exists, a colour assigned through each
+            sh = self.pick(sl, shape_i, lambda s: type(s).__name__ in ("Shape", "SlidePlaceholder") and _has(s, "fill"))
+            if sh is None:
+                return "skipped"
+            def f():
+                if v % 3 == 0:
+                    sh.fill.solid()
+                    a, b = sh.fill.fore_color, sh.fill.fore_color
+                elif v % 3 == 1:
+                    a, b = sh.line.color, sh.line.color
+                else:
+                    if not (sh.has_text_frame and sh.text_frame.paragraphs[0].runs):
+                        sh.text_frame.paragraphs[0].add_run().text = "c"
+                    r = sh.text_frame.paragraphs[0].runs[0]
+                    a, b = r.font.color, r.font.color
+                if v < 4:
+                    b.rgb = RGBColor(1, 2, 3); a.theme_color = themes[v % len(themes)]
+                else:
+                    b.theme_color = themes[v % len(themes)]; a.rgb = RGBColor(4, 5, 6)
+            info.update(slide=sl, target=sh)
+            return self._call("fmt_two_proxies", f, rej)
         if kind == 31:
             sh = self._text_target(sl, shape_i)
             if sh is None:
@@ -875,6 +920,15 @@ class Interp:
                     ch.legend.position = 999983
                 else:
                     ch.font.name = "Bad\x01Name"
+            elif kind == 26:
+                ax = axis(v % 2)
+                if ax is not None:
+                    ax.has_title = True
+                    if v % 3:
+                        ax.axis_title.text_frame.text = "Axis"
+                    ax.axis_title.has_text_frame = bool(v % 2)
+                    if v >= 4:
+                        ax.axis_title.format.fill.solid()
             else:
                 ax = axis(0)
                 if ax is not None:
